@@ -97,6 +97,13 @@ def midnightPublic (resolve : Nat → TZ) (now : Instant) (obs : Obs α) (date :
   let z := normTz resolve tz
   midnight obs (normDatePlain now z date) z
 
+/-- `midnight` when the date is spelled as a datetime: `datetime.combine(date, …)` and
+    `date.year/month/day` read only its calendar date; its own zone (if any) plays no part -/
+def midnightPublicSpec (resolve : Nat → TZ) (now : Instant) (obs : Obs α) (date : DateSpec)
+    (tz : TzArg) : Except Err Instant :=
+  let z := normTz resolve tz
+  midnight obs (normDateMoon now z date) z
+
 /-- the period functions and the five-event bundle: the zone may be a name, the date may be
     omitted (today in that zone) — nothing else is normalised -/
 inductive PeriodFn | daylight | night | twilight | goldenHour | blueHour | rahuDay | rahuNight
